@@ -11,6 +11,7 @@ import (
 )
 
 func (e *vEngine) VirtualizationStop(_ context.Context, id string, _ time.Duration) error {
+	defer vGuard()()
 	if e.w.fault("engine.VirtualizationStop") {
 		return vErrInjected
 	}
